@@ -196,6 +196,9 @@ def empirical_subsets_filter(H, dag):
     & Renaud Lambiotte. https://arxiv.org/abs/2307.04613
 
     """
+    # Decide every removal on the unfiltered DAG and remove afterwards, so that
+    # the result does not depend on the order in which hyperedges are visited
+    to_remove = []
     # Loop over all edges
     for edge_idx in dag:
         preds = list(dag.predecessors(edge_idx))
@@ -203,10 +206,9 @@ def empirical_subsets_filter(H, dag):
             # Get the minimum superface size
             min_sup_size = min([len(H.edges.members(cand_idx)) for cand_idx in preds])
             # Keep only the superfaces with that size
-            to_remove = []
             for cand_idx in preds:
                 if len(H.edges.members(cand_idx)) != min_sup_size:
-                    dag.remove_edge(cand_idx, edge_idx)
+                    to_remove.append((cand_idx, edge_idx))
 
         # Repeat for subsets
         outs = list(dag.successors(edge_idx))
@@ -214,5 +216,6 @@ def empirical_subsets_filter(H, dag):
             max_sub_size = max([len(H.edges.members(sub_idx)) for sub_idx in outs])
             for cand_idx in outs:
                 if len(H.edges.members(cand_idx)) != max_sub_size:
-                    dag.remove_edge(edge_idx, cand_idx)
+                    to_remove.append((edge_idx, cand_idx))
+    dag.remove_edges_from(to_remove)
     return dag
